@@ -79,7 +79,9 @@ def build(case: Dict[str, Any]):
                          stride_size=[1] if tight else [1, 1], layer_norm=case.get("layer_norm", False), **kw)
         return m, (lambda r, n: (torch.as_tensor(r.rand(n, 3, h, w_).astype(np.float32)),)), ("tensor", (nout,))
     if kind == "CNN3d":
-        m = EvolvableCNN(input_shape=[3, 2, 10, 10], num_outputs=nout, channel_size=[8], kernel_size=[(1, 3, 3)] if case.get("tuple_kernels") else [3], stride_size=[1], block_type="Conv3d",
+        two = not tight  # a second layer from the start: kernel mutations of the *first* layer (whose kernel spans the depth) need one
+        m = EvolvableCNN(input_shape=[3, 2, 10, 10], num_outputs=nout, channel_size=[8, 8] if two else [8],
+                         kernel_size=([(1, 3, 3)] if case.get("tuple_kernels") else [3]) * (2 if two else 1), stride_size=[1, 1] if two else [1], block_type="Conv3d",
                          sample_input=torch.zeros(1, 3, 2, 10, 10), min_hidden_layers=1, max_hidden_layers=3, min_channel_size=4, max_channel_size=24)
         return m, (lambda r, n: (torch.as_tensor(r.rand(n, 3, 2, 10, 10).astype(np.float32)),)), ("tensor", (nout,))
     if kind == "LSTM":
@@ -471,6 +473,9 @@ def _run(ctx: kernel.Ctx, prop: str, case: Dict[str, Any], loc: Dict[str, Any]) 
                     kwargs = {"numb_new_channels": int(op["delta"])}
                 elif base in ("add_latent_node", "remove_latent_node"):
                     kwargs = {"numb_new_nodes": int(op["delta"])}
+            if base == "change_kernel" and int(op["seed"]) % 2 == 0:
+                # explicit layer and size: the first layer is never drawn at random, and in a 3d block it is the one whose kernel spans the depth
+                kwargs = {"hidden_layer": 0, "kernel_size": 1 + int(op["delta"]) % 3}
             seed_all(op["seed"])
             ret = getattr(m2, name)(**kwargs)
             applied = m2.last_mutation_attr
